@@ -34,7 +34,11 @@ def gen(rnd):
     buffer = rnd.choice([1, 10, 100, 1000, 1000, 5000, 10000, log_int(rnd, 1, 10000)])
     threads = rnd.choice([1, 1, 2, 3, 4])
     ponder_opt = rnd.random() < 0.3
-    g = {"root": root, "one": one, "buffer": buffer, "threads": threads, "ponder_opt": ponder_opt}
+    # MaxNPS clause: only values above the virtual clock's own rate (NODES_PER_MS * 1000 nps) are usable - below it the engine sleeps in
+    # real time while the node-driven clock stands still.  The polling interval must stay capped at 1000 nodes whatever the setting.
+    maxnps = rnd.choice([0, 0, 0, 150000, 1000000, 10000000, 200000000])
+    limit_strength = rnd.random() < 0.1          # UCI_LimitStrength with a high Elo implies a large MaxNPS as well
+    g = {"root": root, "one": one, "buffer": buffer, "threads": threads, "ponder_opt": ponder_opt, "maxnps": maxnps, "limit_strength": limit_strength}
     if rnd.random() < 0.35:
         mt = rnd.choice([1, 2, 10, log_int(rnd, 1, 100000)])
         g.update(kind="movetime", go=f"movetime {mt}", movetime=mt, time=0)
@@ -60,6 +64,11 @@ def run_one(bdir, g, net, idx, wd):
         eng.send(f"setoption name BufferTime value {g['buffer']}")
         eng.send(f"setoption name Threads value {g['threads']}")
         eng.send(f"setoption name Ponder value {'true' if g['ponder_opt'] else 'false'}")
+        if g["maxnps"]:
+            eng.send(f"setoption name MaxNPS value {g['maxnps']}")
+        if g["limit_strength"]:
+            eng.send("setoption name UCI_LimitStrength value true")
+            eng.send("setoption name UCI_Elo value 2600")
         eng.isready()
         eng.send(f"position {g['root']}")
         ponder = g["mode"] in ("ponderhit", "ponderstop")
@@ -94,7 +103,7 @@ def to_events(g, tp):
             tok = d.get("txt", "").split()
             if tok and tok[0] == "go":
                 ev.append({"e": "TGo", "start": d["a"], "movetime": g["movetime"], "time": g["time"], "buffer": g["buffer"],
-                           "ponder": "ponder" in tok, "slack": slack, "txt": f"{g['root']} | {d['txt']} | BufferTime {g['buffer']} Threads {g['threads']} Ponder {g['ponder_opt']}"})
+                           "ponder": "ponder" in tok, "slack": slack, "txt": f"{g['root']} | {d['txt']} | BufferTime {g['buffer']} Threads {g['threads']} Ponder {g['ponder_opt']} MaxNPS {g['maxnps']} LimitStrength {g['limit_strength']}"})
             elif tok and tok[0] == "stop":
                 ev.append({"e": "TStop", "vt": d["vt"]})
             elif tok and tok[0] == "ponderhit":
